@@ -8,6 +8,7 @@ From stdpp Require Import gmap.
 From Crdt Require Import model.VClock model.Simple model.Orswot model.MVReg model.List model.Merkle
   spec.System spec.OrswotSpec spec.Specs spec.OrswotSystem spec.MVRegSystem spec.ListSystem
   proofs.Simple proofs.OrswotSystem proofs.MVReg proofs.ListSystem proofs.GListSystem proofs.MerkleSystem.
+From Crdt Require Import model.Map proofs.MapFacts proofs.MapRefuted.
 Local Open Scope N_scope.
 
 Theorem C09_orswot H (Hok : ohist_ok H) s K i r s' K' : oreach H s K → oreach H s' K' →
@@ -61,3 +62,25 @@ Theorem C09_pncounter (H : list (oprec pnop)) s K s' K' i r :
   (H !! i = Some r → i ∈ K → pn_apply s (op_val r) = s) ∧ (K' ⊆ K → pn_merge s s' = s).
 Proof. exact (pn_hybrid_absorb H s K s' K' i r). Qed.
 Print Assumptions C09_pncounter.
+
+(** Map is REFUTED (known finding T2): a key removed by a peer resurrects its old member when merged with the state of the actor that concurrently issued a second update (op delivery gives a different result) *)
+Theorem C09_map_resurrection_refuted_witness :
+  let s0 := mnew in
+         let op1 := upd_or_add s0 2 0 8 in
+         let a1 := or_apply s0 op1 in
+         let op2 := upd_or_add a1 2 0 9 in
+         let a2 := or_apply a1 op2 in
+         let p1 := or_apply s0 op1 in
+         let op3 := rm_key oop p1 0 in
+         let p2 := or_apply p1 op3 in
+         op1 = MUp {| dactor := 2; dcounter := 1 |} 0 (OAdd {| dactor := 2; dcounter := 1 |} [8])
+         ∧ op2 = MUp {| dactor := 2; dcounter := 2 |} 0 (OAdd {| dactor := 2; dcounter := 2 |} [9])
+           ∧ op3 = MRm {[2 := 1]} {[0]}
+             ∧ read_or p1 0 = Some [8]
+               ∧ read_or p2 0 = None
+                 ∧ contains_or (or_merge p2 a2) 0 8 = true
+                   ∧ contains_or (or_merge a2 p2) 0 8 = true
+                     ∧ read_or (or_apply p2 op2) 0 = Some [9]
+                       ∧ read_or (or_apply a2 op3) 0 = Some [9] ∧ or_merge p2 a2 ≠ or_apply p2 op2.
+Proof. exact map_T2_resurrection_refuted. Qed.
+Print Assumptions C09_map_resurrection_refuted_witness.
